@@ -103,6 +103,8 @@ def translate_c_to_cirq(source_circuit, noise_model=None, save_measurements=Fals
                 # Rename a copy: the gates of the source circuit must not be modified
                 gate = copy.copy(gate)
                 gate.name = 'CX'
+        elif gate.name in {"CH", "CX", "CY", "CZ", "CNOT", "CRX", "CRY", "CRZ", "CPHASE", "CSWAP"}:
+            raise ValueError(f"Gate '{gate.name}' requires at least one control qubit")
         if gate.name in {"H", "X", "Y", "Z", "S", "SDAG", "T"}:
             target_circuit.append(GATE_CIRQ[gate.name](qubit_list[gate.target[0]]))
         elif gate.name in {"CH", "CX", "CY", "CZ"}:
